@@ -24,7 +24,7 @@ P = {
    "Trusts go/types, the Kahn-stage argument, contracts of sub-indicators and wrapped strategies, Γ, Fourier–Motzkin. Prefix equality of runs is a consequence and is not re-checked numerically.",
    "§4 C04"),
  "C05": (True,
-   "stream-shape calculus on every strategy Compute (length, anchor, Hold-fill prefix, fill-taint), registry coverage, action-constant lint",
+   "stream-shape calculus on every strategy Compute (length, anchor, Hold-fill prefix, fill-taint; the indicator warm-up contracts used on the way are re-proved), registry coverage, action-constant lint",
    "Static analysis. For all 40 strategy types: len(actions) = max(n, warm-up) (so exactly n beyond the warm-up and never fewer than n), anchor exactly 0, the final prefix is strategy.Hold and covers every element computed from another Shift's fill value, for ALL admissible configurations and n >= 0; compounds/decorators against the Strategy contract; every registry entry's type was analysed; Action values originate only from the three constants; the No-Loss/Stop-Loss decorators say Hold and stay not invested while the wrapped strategy says Hold and no position is open, for every closing price (rule actions/decorator-hold, on the closures' guarded commands).",
    "Trusts go/types, the Strategy interface contract for wrapped strategies, sub-indicator contracts, Γ, Fourier–Motzkin. Alligator and SMMA strategies emit n+1 actions one day late (pinned by their tests): known findings.",
    "§4 C05"),
@@ -64,12 +64,12 @@ P = {
    "Trusts go/types, go/ssa+CHA, go/cfg, sync/atomic and sync.Mutex. Repaired: racy hasErrors flag (8f086f1), unsynchronised InMemoryRepository (e6c9678).",
    "§4 C12"),
  "C13": (True,
-   "typed-AST protocol lints on Backtest.Run/worker + SSA shared-write analysis rooted at `go b.worker` + go/cfg lock-state lints on both report types + comparator totality lint",
+   "typed-AST protocol lints on Backtest.Run/worker (incl. the asset loop is left only when the name channel is exhausted) + SSA shared-write analysis rooted at `go b.worker` + go/cfg lock-state lints on both report types + comparator totality lint",
    "Static analysis of structural conditions: Begin before the workers, End after Wait; per asset AssetBegin, exactly one Write per strategy (unconditional, fed by ComputeWithOutcome of that strategy on a fresh SliceToChan), AssetEnd; nothing reachable from a worker writes shared memory without a mutex, and both bundled reports touch their maps only under the mutex on every path; sort comparators do not convert a float difference to int; every slice index in package backtest is the key of a range over that slice, a constant below the constant count of helper.Duplicate, or protected by a length check ('no run crashes'). Equality of the reported numbers with a direct evaluation is not decided.",
    "Trusts go/types, go/ssa+CHA, go/cfg. Repaired: unsynchronised reports (bd51cda), int(float difference) comparators (9dddcd8), HTMLReport.AssetEnd results[0] on an empty list (2e636f6).",
    "§4 C13"),
  "C14": (True,
-   "stream-shape calculus on every strategy Report: each column stream vs. the date stream (length and anchor), symbolic in the periods",
+   "stream-shape calculus on every strategy Report: each column stream vs. the date stream (length and anchor), symbolic in the periods; the indicator warm-up contracts used on the way are re-proved",
    "Static analysis. The report template zips the date stream with one Value() per column per row; for all 40 Report methods every column found in the constructed helper.Report is proved to have exactly the date stream's length and anchor for all admissible configurations and every n beyond the warm-up.",
    "Trusts go/types, the template's zip semantics (its shape is re-checked on every run), contracts (C02, C05), Γ, Fourier–Motzkin. The Alligator/SMMA report columns inherit the pinned C05 defect (known findings); the APO column was repaired (fix: d5cfb51).",
    "§4 C14"),
@@ -79,8 +79,8 @@ P = {
    "Trusts go/types, the admissibility table Γ, the helper.Ring fullness model and the in-house Fourier–Motzkin procedure; helper stages are re-summarised from helper/ on every run (C16 checks those summaries against the slice models). Sub-indicators are used through their declared IdlePeriod contract in the quick tier; the thorough tier re-derives everything contract-free.",
    "§4 C02"),
  "C17": (True,
-   "typed-AST lints with finite decision tables over the orderings {<,=,>}: no ordering by the sign of a difference in generic numeric code; Insert/search routing agreement; Ring index discipline",
-   "Static analysis of four structural necessary conditions, not of model conformance: ordering decisions on generic numeric values use comparison operators (a difference overflows for integer element types); evaluated on the three orderings, Insert and searchNode route smaller and larger keys to the same side and search stops on equality; every Ring buffer index is begin/end or reduced modulo len(buffer) and begin/end advance only through nextIndex = (i+1) % len(buffer); the ring's state invariant `empty => begin == end` is established by NewRing and preserved on every path of every method (guarded commands of the methods, receiver fields as state). Conformance to the FIFO/multiset models under arbitrary operation histories is not decided.",
+   "typed-AST lints with finite decision tables: no ordering by the sign of a difference in generic numeric code; Insert/search routing agreement over {<,=,>}; Ring index discipline and state invariant; link-write discipline of the tree (attach / splice / replace, each store justified on every truth assignment of the pointer comparisons on its path)",
+   "Static analysis of five structural necessary conditions, not of model conformance (the fifth: every store into a child link, the root or a node value in package helper is an attach into a nil link, a splice of a node whose other child is nil out of the link that pointed at it, or the value of the in-order neighbour which is itself spliced out with the parent its verified search loop returned - so Remove loses no node but the one removed): ordering decisions on generic numeric values use comparison operators (a difference overflows for integer element types); evaluated on the three orderings, Insert and searchNode route smaller and larger keys to the same side and search stops on equality; every Ring buffer index is begin/end or reduced modulo len(buffer) and begin/end advance only through nextIndex = (i+1) % len(buffer); the ring's state invariant `empty => begin == end` is established by NewRing and preserved on every path of every method (guarded commands of the methods, receiver fields as state). Conformance to the FIFO/multiset models under arbitrary operation histories is not decided.",
    "Trusts go/types; values are only compared, so three orderings are exhaustive for the routing rule. Repaired: searchNode ordered by subtraction (930a477).",
    "§4 C17"),
  "C18": (True,
